@@ -12,6 +12,9 @@ Bound:
     part X  inflations that cross decode()'s "fewer than 8 tokens" switch and
             _join_tokens: s*9 for every s of length <= 3, and P+s / s+P / m+s*... with
             P = seven well-formed escapes, for every s of length <= 3 (4 thorough)
+    part T  all sequences of <= 3 (4 thorough) tokens over 15 multi-character tokens: escaped valid
+            2/3/4-byte UTF-8 sequences (both hex cases), truncated lead, stray continuation,
+            overlong, escaped surrogate, %41 %2B %25, bare '%', '+', 'a', raw 2-byte char
     part H  every authority  host[:port]  with host in {reg-names <= 3 symbols over
             {a,1,.,-,~,%4A,!}, IPv4, IP-literals} x port in {absent, 8 digit strings}
             x default_port in {absent, None, 443}
@@ -56,11 +59,19 @@ def alphabet(seed):
     return _SEED_SYMS[seed % len(_SEED_SYMS)]
 
 
+TOKENS = ('%C3%A9', '%C3', '%A9', '%E2%82%AC', '%e2%82%ac', '%F0%9F%98%80', '%ED%A0%80', '%C0%AF',
+          '%41', '%2B', '%25', '%', '+', 'a', '\u00e9')
+
+
 def seven_escapes(seed):
     syms = alphabet(seed)
     h1, h2 = syms[2], syms[3]
     return ('%' + h1 + h2) * 7
 
+
+import falcon.util.uri as _impl  # noqa: E402  (private joiners, checked when present)
+JOINERS = tuple(f for f in (getattr(_impl, '_join_tokens_bytearray', None), getattr(_impl, '_join_tokens_list', None))
+                if callable(f))
 
 ENCODERS = (
     ('encode', U.encode, R.URI_ALLOWED, False),
@@ -93,10 +104,12 @@ def _viol(rep, kind, fn, s, exp, got, part, extra=None):
 def check_string(s, rep, part, register=True):
     """All C10 string checks for one input.  Returns the number of real-code calls."""
     calls = 0
-    nontrivial = False
+    nontrivial = '%' in s
     # -- decode ------------------------------------------------------------
     for plus in (True, False):
         exp = R.ref_decode(s, plus)
+        if plus:
+            decoded = exp
         try:
             got = U.decode(s, plus)
         except Exception as e:  # noqa
@@ -105,14 +118,24 @@ def check_string(s, rep, part, register=True):
         if got != exp:
             _viol(rep, 'decode-mismatch' if not isinstance(got, tuple) else 'decode-raises', 'decode', s, exp, got,
                   part, {'plus': str(plus)})
-        if exp != s:
-            nontrivial = True
     try:
         if U.decode(s) != R.ref_decode(s, True):      # default argument == unquote_plus=True
             _viol(rep, 'decode-mismatch', 'decode', s, R.ref_decode(s, True), U.decode(s), part, {'plus': 'default'})
     except Exception as e:  # noqa
         _viol(rep, 'decode-raises', 'decode', s, R.ref_decode(s, True), type(e).__name__, part, {'plus': 'default'})
     calls += 1
+    # -- both platform-specific token joiners of the long path (only one is wired in per platform)
+    if part != 'S' and '%' in s:
+        toks = s.encode('utf-8').split(b'%')
+        for jn in JOINERS:
+            try:
+                got = jn(list(toks))
+            except Exception as e:  # noqa
+                got = ('raised', type(e).__name__, str(e)[:80])
+            calls += 1
+            exp = R.ref_decode(s, False)
+            if got != exp:
+                _viol(rep, 'decode-mismatch', jn.__name__, s, exp, got, part)
     # -- encoders ------------------------------------------------------------
     for name, fn, allowed, chk in ENCODERS:
         plain = R.ref_encode(s, allowed)
@@ -130,8 +153,6 @@ def check_string(s, rep, part, register=True):
         except Exception as e:  # noqa
             _viol(rep, 'encode-raises', name, s, exp, '%s: %s' % (type(e).__name__, e), part)
             continue
-        if exp != s:
-            nontrivial = True
         if type(out) is not str or not R.output_grammar_ok(out, allowed, upper_only):
             _viol(rep, 'encode-output-not-rfc3986', name, s, exp, out, part)
             continue
@@ -160,6 +181,8 @@ def check_string(s, rep, part, register=True):
     rep.state()
     rep.trans(calls)
     rep.trace()
+    cls = input_class(s)
+    rep.outcome('decode:%s:%s%s' % (cls['path'], cls['esc'], ':U+FFFD' if '\ufffd' in decoded else ''))
     if nontrivial:
         rep.c['nontrivial_inputs'] += 1
         if register:
@@ -269,6 +292,7 @@ def gen_shards(tier, seed):
     shards.append(('H',))
     shards.append(('Q', LQ))
     shards.append(('X9', 3))
+    shards.append(('T', 3 if tier == 'quick' else 4))
     for n in range(0, LX + 1):
         if n <= 3:
             shards.append(('XP', n, ()))
@@ -296,7 +320,8 @@ def run_shard(shard, rep):
         for s in strings(syms, n, pre):
             check_string(s, rep, 'S', reg)
         if n == 2 and not pre:
-            rep.sample({'part': 'S', 'example': syms[0] + syms[2], 'decode': U.decode(syms[0] + syms[2])})
+            ex = '%' + syms[2] + syms[3] + syms[1] + syms[13]
+            rep.sample({'part': 'S', 'example': ex, 'decode': U.decode(ex), 'encode_value': U.encode_value(ex)})
     elif kind == 'X9':
         for n in range(0, shard[1] + 1):
             for s in strings(syms, n, ()):
@@ -312,9 +337,22 @@ def run_shard(shard, rep):
                 check_string(s + P, rep, 'XP')
                 check_string(M + s, rep, 'XP')        # seven malformed escapes, then s
                 check_string(P[:9] + s + P[9:], rep, 'XP')
+    elif kind == 'T':
+        for n in range(1, shard[1] + 1):
+            for tup in itertools.product(TOKENS, repeat=n):
+                check_string(''.join(tup), rep, 'T')
+        rep.sample({'part': 'T', 'example': '%C3%A9%C3+%A9', 'decode': U.decode('%C3%A9%C3+%A9')})
     elif kind == 'H':
         for auth, host, port in authority_forms():
             check_host(auth, host, port, rep)
+        # informational only (not judged here; C09 / DESIGN section 6 #7): empty or non-numeric port
+        probe = {}
+        for a in ('a:', 'a:b', '[::1]:', '[::1]:x'):
+            try:
+                probe[a] = repr(U.parse_host(a))
+            except Exception as e:  # noqa
+                probe[a] = 'raises ' + type(e).__name__
+        rep.parts['out_of_scope_probe_invalid_port'] = probe
         rep.sample({'part': 'H', 'example': '[2001:db8::1]:8080', 'parse_host': list(U.parse_host('[2001:db8::1]:8080'))})
     elif kind == 'Q':
         for n in range(0, shard[1] + 1):
@@ -322,9 +360,6 @@ def run_shard(shard, rep):
                 check_unquote(''.join(tup), rep)
     else:
         raise AssertionError(shard)
-    # coarse outcome classes for the string parts
-    if kind in ('S', 'X9', 'XP'):
-        rep.outcome('strings:%s:len%s' % (kind, shard[1]), 1)
 
 
 def check(rep):
@@ -335,14 +370,15 @@ def check(rep):
         'S_max_len': b['L'], 'S_strings': sum(16 ** n for n in range(b['L'] + 1)),
         'X9': 's*9 for all s with len<=3', 'XP_max_len': b['LX'],
         'XP': 'P+s, s+P, 7 malformed+s, P split around s; P = 7 well-formed escapes',
+        'T_tokens': list(TOKENS), 'T_max_tokens': 3 if rep.tier == 'quick' else 4,
         'H': 'reg-names <=3 over {a,1,.,-,~,%4A,!} + named hosts + IPv4 + 10 IP-literals, x 9 port forms x 4 default_port forms',
         'Q_max_len': b['LQ'], 'Q_alphabet': ['"', '\\', 'a', ' '],
         'functions': ['decode(plus=True/False/default)', 'encode', 'encode_value', 'encode_check_escaped',
                       'encode_value_check_escaped', 'parse_host', 'unquote_string'],
     }
     rep.rule = ('state = one distinct input; transition = one call of a falcon.uri function; '
-                'non-trivial = distinct inputs of length <= 4 (plus all inflations) that some function must change '
-                '(contains an escape/plus to decode or a byte to escape), authorities with a port or IP-literal, '
+                'non-trivial = distinct inputs of length <= 4 (plus all inflations) that contain a percent sign '
+                '(the decoder leaves its identity fast path), authorities with a port or IP-literal, '
                 'quoted-strings with a quoted-pair; longer non-trivial strings are counted in counters.nontrivial_inputs')
     rep.assumptions = ['pure-Python falcon.util.uri from the working tree (no cyutil)',
                        'UTF-8 "replace" decoding of the stdlib is the definition of "read as UTF-8 with replacement"',
